@@ -7,7 +7,7 @@ TB = "Trusted: Kani 0.68/CBMC 6.11/CaDiCaL and Kani's model of Rust+std; the han
 CLAIMS = {
  "C01": dict(
    text="Bounded model checking of the real encode/decode code against an independent spec codec. "+E_FE+": bytes written == spec encoding for every argument value, descriptors = the caller's on the first send only. "+E_BE+": reply/ack bytes == spec encoding. U-level: extract_request_body<T> decodes each body type to exactly the wire bytes; request-code tables over all u32.",
-   note=TB+"Bounds: config payload 4 bytes (1 and 0 in thorough), memory table <= 2 regions, <= 2 descriptors, SHMEM config reply checked on its first 40 bytes only; 4096-byte payloads, 32 regions/descriptors, GPU channel: the send-only operations (set_scanout, cursor_pos(_hide), set_dmabuf_scanout(2), update_scanout, set_protocol_features); backend-initiated requests and their acks: see C18; GPU replies, display-info/EDID/cursor images are outside the bounds. Header control words of peers are concrete classes at E level (fully symbolic at U level).",
+   note=TB+"Bounds: config payload 4 bytes (1 and 0 in thorough), memory table <= 2 regions, <= 2 descriptors, SHMEM config reply checked on its first 40 bytes only; 4096-byte payloads, 32 regions/descriptors, GPU channel: the send-only operations (set_scanout, cursor_pos(_hide), set_dmabuf_scanout(2), update_scanout, set_protocol_features) plus get_protocol_features and update_dmabuf_scanout with their replies; backend-initiated requests and their acks: see C18; display-info/EDID/cursor images are outside the bounds. Header control words of peers are concrete classes at E level (fully symbolic at U level).",
    design="4/C01"),
  "C02": dict(
    text="Composition over the shared spec encoding: frontend half ("+E_FE+": accepted calls write exactly spec::encode(op,args); locally rejected calls - queue index >= max, empty/zero-size region, bad handle, invalid config window, un-negotiated feature - write nothing) and backend half ("+E_BE+": a spec-encoded request reaches the handler behind the Mutex adapter exactly once, with equal argument words / payload bytes / descriptor numbers, and no call otherwise).",
@@ -27,7 +27,7 @@ CLAIMS = {
    design="4/C05"),
  "C06": dict(
    text=E_FE+": every reply-bearing and acknowledged operation returns Ok only if the bytes are a reply to that very request (REPLY flag, same code, valid header and body, descriptors exactly when defined) and never fabricates a value; plus recv_body segmentation harnesses; U level (c06_u_*): FrontendInternal::is_reply_for / recv_reply<u64> / wait_for_ack / recv_reply_with_files with ALL 96 header bits of the peer's reply symbolic. ",
-   note=TB+"Backend-to-frontend proxy acks (unit level) and the FrontendReqHandler server (E level, arbitrary bodies/descriptors) are included; the GPU proxy's reply parsing is NOT covered (its error conversion io::Error::other(format!) exhausts CBMC's memory and cannot be stubbed). Reply control words are concrete classes at E level and fully symbolic at U level.",
+   note=TB+"Backend-to-frontend proxy acks (unit level) and the FrontendReqHandler server (E level, arbitrary bodies/descriptors) are included; the GPU proxy's reply parsing is covered for get_protocol_features and update_dmabuf_scanout (conformant, foreign code, REPLY bit missing, undefined flag bit; 0..=1 descriptors) - tractable since Mutex::lock is stubbed (see C10); get_display_info / get_edid replies exceed the wire bound. Reply control words are concrete classes at E level and fully symbolic at U level.",
    design="4/C06"),
  "C07": dict(
    text="Frontend ("+E_FE+", full 64-bit cached feature words symbolic, so a gate on a wrong bit is distinguishable): a gated operation writes bytes only if its spec gating bit is set (offered PROTOCOL_FEATURES for the protocol-feature exchange, acked for ring enable, DEVICE_STATE for state transfer), else Err and zero sends. Backend ("+E_BE+"): handler reached only if the gating bit is in the acked words; GET_PROTOCOL_FEATURES reply always carries REPLY_ACK.",
@@ -42,15 +42,15 @@ CLAIMS = {
    note=TB+"Model level: close(2)/OwnedFd::drop are stubs over the ghost table. vhost-user-backend: replacing/clearing a ring's kick/call/err descriptor closes the previous one exactly once (c09_u_vring_fds at VringState level; the C11 step harnesses for SET_VRING_KICK / GET_VRING_BASE at handler level: the replaced kick descriptor is closed, no installed one is). Code that inspects a received descriptor through a foreign function (getsockopt, fstat, ...) cannot be modelled or stubbed in Kani 0.68: such a change makes the check inconclusive (exit 2), see seeded/C09-a. Teardown at arbitrary points and >32 descriptors are not covered.",
    design="4/C09"),
  "C10": dict(
-   text="Reduction to the endpoint lock: every path to the shared socket goes through the handle's Mutex, so another caller can interleave with a transaction only at a socket syscall made while the lock is free. The syscall stubs (raw_sendmsg/raw_recvmsg) of all E-level harnesses of Frontend (every operation), Backend (5 operations) and GpuBackend (send-only operations) try_lock the endpoint at every call and the harness asserts the lock was never free between the first send and the last receive of the call and is free again on return. A second lock() by the same caller would cut all paths and is caught by the per-harness reachability witness (success path reachable).",
-   note=TB+"Kani does not execute threads: what is decided is the lock discipline of one call for all argument values, from which atomicity of request/response pairs for any number of callers follows by the Mutex contract (argued, not checked); fairness / completion under contention is std's Mutex. GPU reply-bearing operations are not covered (see C06).",
+   text="Reduction to the endpoint lock: every path to the shared socket goes through the handle's Mutex, so another caller can interleave with a transaction only at a socket syscall made while the lock is free. The syscall stubs (raw_sendmsg/raw_recvmsg) of all E-level harnesses of Frontend (every operation), Backend (5 operations) and GpuBackend (send-only operations, get_protocol_features and update_dmabuf_scanout with conformant and non-conformant replies) try_lock the endpoint at every call: the lock is never free at a socket call and is free again on return. std::sync::Mutex::lock itself is replaced by a stub that counts acquisitions and takes the lock with try_lock: every receive must run under the SAME acquisition as the socket call before it (request and reply in one critical section), and a lock() on a mutex the call already holds is reported as self-deadlock (also on error paths).",
+   note=TB+"Kani does not execute threads: what is decided is the lock discipline of one call for all argument values, from which atomicity of request/response pairs for any number of callers follows by the Mutex contract (argued, not checked); fairness / completion under contention is std's Mutex. GPU get_display_info / get_edid exceed the ghost wire bound (408 / 1056-byte replies) and are not covered.",
    design="4/C10"),
  "C11": dict(
    text="The ring state machine as an INDUCTIVE STEP on the real daemon handler (VhostUserHandler built by struct literal, real VringEpollHandler::handle_event as the worker, ghost epoll interest lists and eventfd counters): from every combination of per-ring pre-states (not started / started without kick fd / started with kick fd) x enabled x pending kick on 2 rings, one step of {SET_FEATURES without PF, SET_VRING_KICK new, SET_VRING_KICK none, SET_VRING_CALL, SET_VRING_ENABLE 0/1, GET_VRING_BASE, RESET_DEVICE, guest kick + worker turn} on a symbolic ring preserves 'kick fd in the worker's interest list <=> started and enabled', follows the reference machine, dispatches iff active, consumes a kick only when dispatching and never runs the handler on control messages. Found F5 (kick fd installed on an already started ring never watched; fixed d8b719e).",
    note=TB+"Ghost epoll: ADD of a present fd / DEL of an absent one are reported as Ok (the code ignores exactly EEXIST/ENOENT); closing a descriptor removes it from all interest lists; level-triggered readiness = counter > 0. The handler/epoll-handler/ring constructors are NOT executed (Kani cannot compile them: ArcSwap drop glue) - objects are built by literal with the per-thread slices given. SET_FEATURES with PROTOCOL_FEATURES and bounded symbolic histories (depth 2-3) are in the thorough tier.",
    design="4/C11"),
  "C12": dict(
-   text="Schedules are made symbolic by SEQUENTIALISATION at the points where worker and control thread can be suspended relative to each other, executing the real functions in that order: W1 (epoll_wait returned a now stale event) . C (SET_VRING_ENABLE 0 / GET_VRING_BASE / RESET_DEVICE runs to completion) . worker continues . re-enable . worker turn; and W2 (worker read the kick, ring lock released, handler not yet entered) . C . worker continues. Asserted: no event-handler entry for the ring after the reply of C; a kick is never consumed without being processed and is processed after re-enabling. Found F6 (stale event: kick of a disabled ring consumed and lost; stopped ring still dispatched - fixed 0f98fb0). The W2 window is a genuine race that is recorded as a known finding (KNOWN-FINDING lines), not repaired.",
+   text="Schedules are made symbolic by SEQUENTIALISATION at the points where worker and control thread can be suspended relative to each other, executing the real functions in that order: W1 (epoll_wait returned a now stale event) . C (SET_VRING_ENABLE 0 / GET_VRING_BASE / RESET_DEVICE runs to completion) . worker continues . re-enable (resp. restart with a new kick descriptor and a fresh kick after GET_VRING_BASE) . worker turn; and W2 (worker read the kick, ring lock released, handler not yet entered) . C . worker continues. Asserted: no event-handler entry for the ring after the reply of C; a kick is never consumed without being processed and is processed after re-enabling / restarting. Found F6 (stale event: kick of a disabled ring consumed and lost; stopped ring still dispatched - fixed 0f98fb0). The W2 window is a genuine race that is recorded as a known finding (KNOWN-FINDING lines), not repaired.",
    note=TB+"Only these two families of two-thread schedules (each control message atomic w.r.t. the worker step it is nested in); a control thread suspended mid-message, more threads, and eventual processing beyond one re-enable are argued, not checked. No native multi-thread replay exists; the harness order is an execution of the real functions.",
    design="4/C12"),
  "C13": dict(
@@ -70,8 +70,8 @@ CLAIMS = {
    note=TB+"The per-thread ring slices are built by the harness as the property describes them (VhostUserHandler::new cannot be compiled by Kani), so the slice construction in the constructor itself is NOT covered. Epoll::wait is scripted (two events); the worker's 100-entry event buffer creation (vec![..;100]) is stubbed to avoid a 100-fold unwinding.",
    design="4/C17"),
  "C18": dict(
-   text="Server half: the real FrontendReqHandler::handle_request (built by literal) over the ghost socket, one harness per backend request code and flag class, symbolic body / 0..=2 descriptors / reply-ack flag / handler outcome (value, errno 1..=4095, error without errno): application handler invoked exactly once for well-formed requests with exactly the prescribed descriptor (lent, closed afterwards), equal arguments; ack written iff reply-ack and NEED_REPLY, carrying the handler's value resp. the two's-complement negated errno (-EINVAL default). Proxy half: Backend's five operations without REPLY_ACK (bytes == spec, descriptor where defined, nothing awaited) and with the feature flag off (refused, nothing written); acknowledged requests on BackendInternal::send_message/wait_for_ack (NEED_REPLY set, success iff conformant zero ack, foreign acks refused).",
-   note=TB+"The proxy's public methods with REPLY_ACK convert every error into a boxed io::Error, which exhausted CBMC's memory (14/40 GB); that path is checked one level below the public wrapper (the wrapper adds `Ok(guard.send_message(..)?)`). 'k-th ack answers k-th request' follows from one request/one ack per call under the proxy lock (C10).",
+   text="Server half: the real FrontendReqHandler::handle_request (built by literal) over the ghost socket, one harness per backend request code and flag class, symbolic body / 0..=2 descriptors / reply-ack flag / handler outcome (value, errno 1..=4095, error without errno): application handler invoked exactly once for well-formed requests with exactly the prescribed descriptor (lent, closed afterwards), equal arguments; ack written iff reply-ack and NEED_REPLY, carrying the handler's value resp. the two's-complement negated errno (-EINVAL default). Proxy half: Backend's five operations without REPLY_ACK (bytes == spec, descriptor where defined, nothing awaited) and with the feature flag off (refused, nothing written); acknowledged requests both one level below the public wrapper (BackendInternal::send_message/wait_for_ack with all 96 ack header bits symbolic) and through the public methods with REPLY_ACK negotiated (e_px_*_ack: NEED_REPLY set, success iff conformant zero ack without descriptors, foreign acks refused).",
+   note=TB+"The proxy's public methods with REPLY_ACK were intractable (14/40 GB) until std's Mutex::lock was stubbed (C10 acquisition counter); they are now covered for shared_object_add/lookup, shmem_map/unmap (ack header classes concrete), the U-level harnesses keep the fully symbolic ack header. 'k-th ack answers k-th request' follows from one request/one ack per call under the proxy lock (C10).",
    design="4/C18"),
  "C19": dict(
    text="Every operation of the kernel-vhost trait (through a harness type implementing VhostKernBackend), Net::set_backend, Vsock (cid/start/stop) and VhostKernVdpa (13 operations + set_vring_addr) runs against a ghost kernel that captures request number and argument bytes: request == the number computed AT CHECK TIME by uapi/gen.c from the installed <linux/vhost.h> (direction, type, nr, size), argument bytes at the UAPI offsets == the caller's values (all values symbolic), results == what the ghost kernel wrote back; invalid inputs (empty memory table, log region, invalid vDPA ring configuration) issue zero ioctls; vDPA ring addresses are passed unchanged; IOTLB v1/v2 parsers vs UAPI offsets. Found F9 (set_group_asid issued the GET_VRING_GROUP request; fixed b18c060).",
